@@ -355,9 +355,11 @@ func c20Cases(env *core.Env, rng *rand.Rand) []core.Case {
 		{"newest-other-platform", []c20Release{with(good("v9.9.9"), func(r *c20Release) { r.Platform = "other" }), good("v2.5.0")}},
 		{"unordered-catalogue", []c20Release{good("v2.1.0"), good("v10.0.0"), good("v3.1.4"), good("v1.0.0")}},
 		{"newest-tampered-older-good", []c20Release{with(good("v9.9.9"), func(r *c20Release) { r.Checksum = "mismatch" }), good("v2.5.0")}},
+		{"stable-below-running-prerelease", []c20Release{good("v2.0.0"), good("v2.0.9")}},
+		{"release-of-running-prerelease", []c20Release{good("v2.1.0"), good("v3.0.0")}},
 		{"many", []c20Release{good("v1.0.0"), good("v1.5.0"), good("v2.0.0"), with(good("v2.0.1"), func(r *c20Release) { r.Draft = true }), good("v2.0.2"), good("nightly")}},
 	}
-	runnings := []string{"v2.0.0", "v0.0.0-dev", "dev"}
+	runnings := []string{"v2.0.0", "v0.0.0-dev", "dev", "v2.1.0-rc.1", "v3.0.0-beta.2"}
 	for _, s := range scs {
 		for _, run := range runnings {
 			cs = append(cs, &c20Case{Running: run, Releases: s.rels, Name: s.name})
@@ -377,7 +379,7 @@ func c20Cases(env *core.Env, rng *rand.Rand) []core.Case {
 	n := env.N(60, 1500)
 	tags := []string{"v1.0.0", "v1.9.9", "v2.0.0", "v2.0.1", "v2.1.0", "v3.1.4", "v9.9.9", "v10.0.0", "nightly", "v2.2.0-rc1", "2.3.0", "v0.9.0"}
 	for i := 0; i < n; i++ {
-		c := &c20Case{Running: runnings[rng.Intn(3)], Name: "random"}
+		c := &c20Case{Running: runnings[rng.Intn(len(runnings))], Name: "random"}
 		used := map[string]bool{}
 		for k := rng.Intn(7); k > 0; k-- {
 			t := tags[rng.Intn(len(tags))]
@@ -401,7 +403,7 @@ func init() {
 	register(&core.Property{
 		ID:    "C20",
 		Level: "fault_enumeration",
-		Rule: "the built CLI (variants with main.version = v2.0.0, v0.0.0-dev and empty -> 'dev'), copied into a sandbox, runs `self-update` against a fake of the GitHub release API (TLS-intercepting CONNECT proxy, selected only through HTTPS_PROXY / SSL_CERT_FILE). Enumerated: 24 catalogues (newer verified release, checksum mismatching / for another file / empty / missing, corrupt archive, archive without the binary, other platforms only, no assets, empty catalogue, draft, pre-release, older, equal, equal but tampered, non-semver tag, rc tag, newest release unusable with an older usable one behind it, unordered catalogues) x 3 running versions, and for four flows one HTTP fault (500, 404, truncated body, connection reset, empty 200) at each request index 1..4 x 2 running versions; plus PRNG catalogues of 0..6 releases with random attributes and faults. " +
+		Rule: "the built CLI (variants with main.version = v2.0.0, v0.0.0-dev, empty -> 'dev', v2.1.0-rc.1 and v3.0.0-beta.2), copied into a sandbox, runs `self-update` against a fake of the GitHub release API (TLS-intercepting CONNECT proxy, selected only through HTTPS_PROXY / SSL_CERT_FILE). Enumerated: 26 catalogues (newer verified release, checksum mismatching / for another file / empty / missing, corrupt archive, archive without the binary, other platforms only, no assets, empty catalogue, draft, pre-release, older, equal, equal but tampered, non-semver tag, rc tag, newest release unusable with an older usable one behind it, unordered catalogues) x 5 running versions, and for four flows one HTTP fault (500, 404, truncated body, connection reset, empty 200) at each request index 1..4 x 2 running versions; plus PRNG catalogues of 0..6 releases with random attributes and faults. " +
 			"Oracle: a model of the statement decides install / fail / nothing-to-do; install: exit 0 and the executable equals the payload of the best release's linux_amd64 asset and is executable; fail: sha256 unchanged and exit != 0; nothing-to-do: unchanged. Trace property over the fake's request log: the executable changes only if the asset and the checksum file of the same release were both served completely. No file is left next to the executable; no runtime fault or panic. Non-trivial = every scenario.",
 		Cases:         c20Cases,
 		Check:         c20Check,
